@@ -70,7 +70,7 @@ class C17(Check):
     required_probes = [
         "crash_points_enumerated", "lost_writes_enumerated", "load_rejected_incomplete", "load_accepted_complete",
         "special_values", "markers_eq_dim", "overwrite", "foreign_file", "param_mismatch_reader", "rod_io", "eulerian_io",
-        "grid_without_fields", "recovery_after_failed_save", "post_hoc_delete", "reader_object_reused",
+        "grid_without_fields", "recovery_after_failed_save", "post_hoc_delete", "reader_object_reused", "file_name_without_h5_suffix",
     ]
     tiers = {
         "quick": {"runs": 640, "batch": 8, "timeout": 300},
@@ -180,7 +180,8 @@ class C17(Check):
                     s["of"] = i
                     readers.append(s)
         specs = ios + readers
-        files = ["a.h5", "b.h5"]
+        # file names are the caller's choice: with and without the customary ".h5" suffix
+        files = rng.choice([["a.h5", "b.h5"], ["a.h5", "b.h5"], ["a.h5", "state.hdf5"], ["chk", "b.h5"], ["run.h5.d_x.h5", "b.h5"]])
         ops = []
         saved = []
         n_ops = rng.randint(3, 10)
@@ -403,6 +404,8 @@ class C17(Check):
                     res.violation("save_modified_source", {"cls": w["spec"]["cls"], "item": str(k[0])}, f"save changed source array {k}")
             if existed:
                 res.probe("overwrite")
+            if not f.endswith(".h5"):
+                res.probe("file_name_without_h5_suffix")
             truth[f] = {"writer": i, "snap": before, "time": t, "ack": ack, "model": sim.models.get(path_of(f), h5sim.FileModel()), "deleted": set()}
             res.add_sim("file_ops", 1)
             res.add_sim("h5_writes", plan.count)
@@ -413,6 +416,13 @@ class C17(Check):
             w = writers[i]
             spec = w["spec"]
             snap = truth[f]["snap"]
+            try:
+                probe = h5py.File(path_of(f), "r")
+                probe.close()
+            except OSError as e:
+                res.violation("layout", {"what": "not_an_hdf5_file", "h5_suffix": f.endswith(".h5")}, f"after an acknowledged fault-free save, '{f}' cannot be opened as HDF5: {e}")
+                truth[f]["destroyed"] = True
+                return
             with h5py.File(path_of(f), "r") as h:
                 tfile = h.attrs["time"]
                 if np.float64(tfile).tobytes() != np.float64(truth[f]["time"]).tobytes():
@@ -522,7 +532,7 @@ class C17(Check):
             has_time = ("", "time") in F.attrs
             nothing_registered = not items
             grids_only = spec["cls"] == "IO" and spec["lgrids"] and not any(g["fields"] for g in spec["lgrids"])
-            sig_base = {"reader": spec["cls"], "mutation": spec.get("mutation"), "fault": tag, "grids_only": bool(grids_only), "dup_names": self._has_duplicate_lag_names(spec)}
+            sig_base = {"reader": spec["cls"], "mutation": spec.get("mutation"), "fault": tag, "h5_suffix": f.endswith(".h5"), "grids_only": bool(grids_only), "dup_names": self._has_duplicate_lag_names(spec)}
             if raised is None:
                 # ---- returned normally
                 if lacking:
@@ -647,9 +657,14 @@ class C17(Check):
                 if not cands:
                     continue
                 victim = cands[op["pick"] % len(cands)]
-                with h5py.File(path_of(f), "a") as h:
-                    if victim in h:
-                        del h[victim]
+                if T.get("destroyed"):
+                    continue
+                try:
+                    with h5py.File(path_of(f), "a") as h:
+                        if victim in h:
+                            del h[victim]
+                except OSError:
+                    continue  # not an HDF5 file any more: reported by the layout / load oracles
                 T["deleted"].add(victim)
                 T["tag"] = "deleted"
                 res.fault("post_hoc_delete")
